@@ -385,7 +385,14 @@ class MergeEngine:
     @staticmethod
     def get_remove_cset(engine, csets):
         """Generate the cset of what files shall be removed from the livefs."""
-        return csets["old_cset"].difference(csets["install"])
+        remove = csets["old_cset"].difference(csets["install"])
+        # the packages may reach the same file through different directory
+        # symlinks; what is being installed must not be taken for a leftover.
+        realpath = livefs._realpath_dir()
+        installed = {realpath(x.location) for x in csets["install"]}
+        return remove.difference(
+            [x for x in remove if not x.is_dir and realpath(x.location) in installed]
+        )
 
     @staticmethod
     def get_replace_cset(engine, csets):
